@@ -410,6 +410,23 @@ class BufferedFront(object):
                             mi = s.model
                             res = compare_reader(srch.reader(), mi.docs, mi.schema, mi.field_names,
                                                  parts=("count", "docs", "stored", "terms", "columns"))
+                            if not res:
+                                # ... and answers searches over it, limited ones included
+                                from whoosh import query
+                                word = s.cfg.vocab[0]
+                                exp = sorted(d.uid for d in mi.docs if word.encode() in d.postings.get("t", {}))
+                                try:
+                                    full = sorted(h["u"] for h in srch.search(query.Term("t", word), limit=None))
+                                    lim = srch.search(query.Term("t", word), limit=1)
+                                    nlim, limu = len(lim), [h["u"] for h in lim]
+                                except (SimAbort, SimKilled, HarnessError):
+                                    raise
+                                except Exception as e:  # noqa
+                                    raise Violation("buffered_view", "a search through BufferedWriter.searcher() raised %s: %s" % (type(e).__name__, e),
+                                                    sig="buffered_view:search_raised:" + exc_sig(e))
+                                if full != exp or nlim != len(exp) or not set(limu) <= set(exp) or len(limu) != min(1, len(exp)):
+                                    raise Violation("buffered_view", "BufferedWriter.searcher(): Term(t,%s) returns %s (limit=1: %s, len %s), committed+buffered documents that match: %s"
+                                                    % (word, full, limu, nlim, exp), sig="buffered_view:search")
                         finally:
                             srch.close()
                         s.count("buffered_view_checks")
